@@ -18,7 +18,8 @@ RULE = ('strings: every string of length 0..5 (quick) / 0..6 (thorough) over the
         'Non-trivial = the string (or the string with one character deleted) is accepted by at least one recogniser; '
         'distinct = distinct string / constructor case. lookalikes also inserts every ASCII punctuation character and formatting '
         'snippets (%s, %d, {}, backslash ...) into valid names: verdict and kind of rejection are judged. ctor_same: one string given '
-        'for two name-carrying arguments of a constructor.')
+        'for two name-carrying arguments of a constructor. words: Python keywords / builtins and the reserved path and names with '
+        'their neighbours, as names and as elements of names.')
 ASSUMPTIONS = ['refcodec recognisers are the trusted statement of the grammar (self-tested on every run)']
 
 ALPHABET = ['a', '1', '_', '.', '-', ':', '/', 'é', ' ', '\n']
